@@ -332,7 +332,18 @@ def check(ck):
 
     # ---- C05.3 private attributes ------------------------------------------------------
     n3 = 0
+    # (new public helpers that nothing on the request path calls - an introspection API for the application - answer no request)
+    reach53, todo53 = set(), [f_ for f_ in prog.module_funcs(SRV) if f_.name in ("_marshaled_dispatch", "_dispatch", "do_POST", "handle_jsonrpc",
+                                                                                  "_unmarshaled_dispatch", "_marshaled_single_dispatch")]
+    while todo53:
+        f_ = todo53.pop()
+        if f_.fq in reach53:
+            continue
+        reach53.add(f_.fq)
+        todo53 += [r_ for (_n, _c, r_) in common.callees(prog, f_)]
     for fi in prog.module_funcs(SRV):
+        if common.is_new_function(fi) and fi.fq not in reach53 and not fi.name.startswith("_"):
+            continue
         g = cfg_of(fi)
         for n in g.live_nodes():
             for e in node_exprs(n):
